@@ -167,6 +167,84 @@ func Load(lc LoadConfig) (*Prog, error) {
 	if len(inv) > 0 {
 		canonNames = inv
 	}
+	// parameters that stand for a field (see LoadOfField)
+	var pfMu sync.Mutex
+	pfCache := map[*ssa.Parameter]*FieldRef{}
+	var callSites map[*ssa.Function][]ssa.CallInstruction
+	ParamField = func(prm *ssa.Parameter) (FieldRef, bool) {
+		pfMu.Lock()
+		defer pfMu.Unlock()
+		if r, ok := pfCache[prm]; ok {
+			if r == nil {
+				return FieldRef{}, false
+			}
+			return *r, true
+		}
+		pfCache[prm] = nil
+		g := prm.Parent()
+		if g == nil || g.Parent() != nil || g.Pkg == nil || !InModule(g) {
+			return FieldRef{}, false
+		}
+		if obj, ok := g.Object().(*types.Func); !ok || obj.Exported() {
+			return FieldRef{}, false
+		}
+		idx := -1
+		for i, q := range g.Params {
+			if q == prm {
+				idx = i
+			}
+		}
+		if idx < 0 {
+			return FieldRef{}, false
+		}
+		if callSites == nil {
+			callSites = map[*ssa.Function][]ssa.CallInstruction{}
+			for _, f := range p.ModuleFuncs() {
+				if f.Blocks == nil {
+					continue
+				}
+				for _, b := range f.Blocks {
+					for _, in := range b.Instrs {
+						if ci, ok := in.(ssa.CallInstruction); ok {
+							if cal := ci.Common().StaticCallee(); cal != nil && InModule(cal) {
+								callSites[cal] = append(callSites[cal], ci)
+							}
+						}
+					}
+				}
+			}
+		}
+		sites := callSites[g]
+		if len(sites) == 0 {
+			return FieldRef{}, false
+		}
+		var ref *FieldRef
+		for _, ci := range sites {
+			args := ArgsWithRecv(ci)
+			if idx >= len(args) {
+				return FieldRef{}, false
+			}
+			a := args[idx]
+			var fr FieldRef
+			var ok bool
+			if u, isU := a.(*ssa.UnOp); isU && u.Op == token.MUL {
+				fr, ok = AsField(u.X)
+			} else if f, isF := a.(*ssa.Field); isF {
+				fr, ok = AsField(f)
+			}
+			if !ok {
+				return FieldRef{}, false
+			}
+			if ref == nil {
+				cp := fr
+				ref = &cp
+			} else if ref.Field != fr.Field || ref.Struct != fr.Struct {
+				return FieldRef{}, false
+			}
+		}
+		pfCache[prm] = ref
+		return *ref, true
+	}
 	altCache := map[string]string{}
 	AltName = func(name string) string {
 		if v, ok := altCache[name]; ok {
@@ -551,6 +629,9 @@ func (p *Prog) altName(name string) string {
 
 func (p *Prog) Func(name string) (fn *ssa.Function) {
 	if fn = p.funcExact(name); fn != nil {
+		if t := forwardTarget(fn); t != nil {
+			return t
+		}
 		return fn
 	}
 	for _, a := range p.altForms(name) {
@@ -575,6 +656,87 @@ func (p *Prog) Func(name string) (fn *ssa.Function) {
 		}
 	}
 	return nil
+}
+
+// forwardTarget: fn does nothing but hand its own parameters and fields of its receiver to one unexported function of
+// its package and return what that returns (a method whose body was turned into a function taking the fields it
+// uses). The rules then look at that function; LoadOfField resolves its parameters back to the fields.
+func forwardTarget(fn *ssa.Function) *ssa.Function {
+	if fn == nil || len(fn.Blocks) != 1 || fn.Signature.Recv() == nil || len(fn.Params) == 0 {
+		return nil
+	}
+	recv := ssa.Value(fn.Params[0])
+	var call *ssa.Call
+	for _, in := range fn.Blocks[0].Instrs {
+		switch x := in.(type) {
+		case *ssa.FieldAddr:
+			if x.X != recv {
+				return nil
+			}
+		case *ssa.UnOp:
+			if _, ok := x.X.(*ssa.FieldAddr); !ok || x.Op != token.MUL {
+				return nil
+			}
+		case *ssa.Field:
+			if x.X != recv {
+				return nil
+			}
+		case *ssa.Call:
+			if call != nil {
+				return nil
+			}
+			call = x
+		case *ssa.Extract:
+			if x.Tuple != ssa.Value(call) {
+				return nil
+			}
+		case *ssa.Return, *ssa.DebugRef:
+		default:
+			return nil
+		}
+	}
+	if call == nil {
+		return nil
+	}
+	g := call.Call.StaticCallee()
+	if g == nil || g.Pkg != fn.Pkg || g.Blocks == nil || g.Signature.Recv() != nil {
+		return nil
+	}
+	if obj, ok := g.Object().(*types.Func); !ok || obj.Exported() {
+		return nil
+	}
+	nField := 0
+	for _, a := range call.Call.Args {
+		switch x := a.(type) {
+		case *ssa.Parameter:
+		case *ssa.UnOp:
+			if _, ok := x.X.(*ssa.FieldAddr); !ok {
+				return nil
+			}
+			nField++
+		case *ssa.Field:
+			nField++
+		default:
+			return nil
+		}
+	}
+	if nField == 0 {
+		return nil
+	}
+	ret, ok := fn.Blocks[0].Instrs[len(fn.Blocks[0].Instrs)-1].(*ssa.Return)
+	if !ok {
+		return nil
+	}
+	for _, r := range ret.Results {
+		if r == ssa.Value(call) {
+			continue
+		}
+		if ex, ok := r.(*ssa.Extract); ok && ex.Tuple == ssa.Value(call) {
+			continue
+		}
+		return nil
+	}
+	return g
 }
 
 // FuncExact resolves name without the host fallback.
